@@ -49,7 +49,9 @@ class Parser(object):
                   tabmodule=self.tabmodule)
 
     def parse(self, input):
-        return self.yacc.parse(input)
+        # lex through a private copy of this parser's own lexer: yacc.parse() would otherwise fall back
+        # on ply's process-global lexer, which is shared by every parser and clobbered by nested parses
+        return self.yacc.parse(input, lexer=self.lex.clone())
 
     def run(self):
         while 1:
